@@ -9,6 +9,13 @@ fn any_peer() -> PeerId {
 }
 
 fn any_state<S: Default>(ins: impl Fn(&mut Behaviour<S>, PeerId)) -> Behaviour<S> {
+    any_state_q(ins, None)
+}
+
+/// `queued`: None = zero or one close request queued (symbolic choice); Some(b) = that choice
+/// made by the caller, so that the VecDeque has a concrete length (the two operations that
+/// push onto the queue are checked once per queue length: jointly exhaustive for <= 1 queued).
+fn any_state_q<S: Default>(ins: impl Fn(&mut Behaviour<S>, PeerId), queued: Option<bool>) -> Behaviour<S> {
     let mut b = Behaviour::<S>::default();
     // pre-sized so that the operation under test does not reallocate the queue
     // (VecDeque growth with a symbolic head/len exhausts CBMC's memory)
@@ -19,22 +26,40 @@ fn any_state<S: Default>(ins: impl Fn(&mut Behaviour<S>, PeerId)) -> Behaviour<S
     if kani::any() {
         ins(&mut b, any_peer());
     }
-    if kani::any() {
+    let q = match queued {
+        Some(q) => q,
+        None => kani::any(),
+    };
+    if q {
         b.close_connections.push_back(any_peer());
     }
     b
 }
 
 fn any_allowed() -> Behaviour<AllowedPeers> {
-    any_state(|b: &mut Behaviour<AllowedPeers>, p| {
-        b.state.peers.insert(p);
-    })
+    any_allowed_q(None)
+}
+
+fn any_allowed_q(queued: Option<bool>) -> Behaviour<AllowedPeers> {
+    any_state_q(
+        |b: &mut Behaviour<AllowedPeers>, p| {
+            b.state.peers.insert(p);
+        },
+        queued,
+    )
 }
 
 fn any_blocked() -> Behaviour<BlockedPeers> {
-    any_state(|b: &mut Behaviour<BlockedPeers>, p| {
-        b.state.peers.insert(p);
-    })
+    any_blocked_q(None)
+}
+
+fn any_blocked_q(queued: Option<bool>) -> Behaviour<BlockedPeers> {
+    any_state_q(
+        |b: &mut Behaviour<BlockedPeers>, p| {
+            b.state.peers.insert(p);
+        },
+        queued,
+    )
 }
 
 fn queue_snapshot<S>(b: &Behaviour<S>) -> (usize, Option<PeerId>, Option<PeerId>) {
@@ -85,6 +110,7 @@ fn check_list_change<S: Default + Enforce>(
     std::mem::forget(e);
     // frame: every other peer's membership unchanged
     assert!(peers(&b).contains(&q) == q_in);
+    std::mem::forget(b);
 }
 
 #[kani::proof]
@@ -95,14 +121,26 @@ fn contract_allow_peer() {
 
 #[kani::proof]
 #[kani::unwind(8)]
-fn contract_disallow_peer() {
-    check_list_change(any_allowed(), |b| &b.state.peers, |b, p| b.disallow_peer(p), false, true, false);
+fn contract_disallow_peer_queue_empty() {
+    check_list_change(any_allowed_q(Some(false)), |b| &b.state.peers, |b, p| b.disallow_peer(p), false, true, false);
 }
 
 #[kani::proof]
 #[kani::unwind(8)]
-fn contract_block_peer() {
-    check_list_change(any_blocked(), |b| &b.state.peers, |b, p| b.block_peer(p), true, true, false);
+fn contract_disallow_peer_queue_one() {
+    check_list_change(any_allowed_q(Some(true)), |b| &b.state.peers, |b, p| b.disallow_peer(p), false, true, false);
+}
+
+#[kani::proof]
+#[kani::unwind(8)]
+fn contract_block_peer_queue_empty() {
+    check_list_change(any_blocked_q(Some(false)), |b| &b.state.peers, |b, p| b.block_peer(p), true, true, false);
+}
+
+#[kani::proof]
+#[kani::unwind(8)]
+fn contract_block_peer_queue_one() {
+    check_list_change(any_blocked_q(Some(true)), |b| &b.state.peers, |b, p| b.block_peer(p), true, true, false);
 }
 
 #[kani::proof]
